@@ -112,7 +112,7 @@ def gen_segment(r, same_span=True, allow_empty=True):
                     "cls": "empty-est"}
         return {"ref_iv": e, "ref_lab": [], "est_iv": e.copy(), "est_lab": [],
                 "cls": "empty-both"}
-    total = r.randrange(64, 64 * 24)
+    total = 2 * r.randrange(32, 32 * 24)
     riv, rlab = gen.segmentation(r, total=total, min_len=4)
     kind = r.choice(["independent", "independent", "copy", "refine", "coarse",
                      "shifted"])
@@ -120,7 +120,7 @@ def gen_segment(r, same_span=True, allow_empty=True):
         eiv, elab = riv.copy(), list(rlab)
     elif kind == "refine":
         bs = sorted(set([int(x * Q) for x in riv.ravel()] +
-                        [r.randrange(1, total) for _ in range(r.randrange(1, 5))]))
+                        [2 * r.randrange(1, max(2, total // 2)) for _ in range(r.randrange(1, 5))]))
         eiv = np.array([[a / Q, b / Q] for a, b in zip(bs[:-1], bs[1:])])
         elab = gen.labels(r, len(eiv))
     elif kind == "coarse":
@@ -128,7 +128,7 @@ def gen_segment(r, same_span=True, allow_empty=True):
         eiv = np.array([[a / Q, b / Q] for a, b in zip(bs[:-1], bs[1:])])
         elab = gen.labels(r, len(eiv))
     elif kind == "shifted":
-        inner = sorted({min(total - 1, max(1, int(x * Q) + r.randrange(-40, 41)))
+        inner = sorted({min(total - 2, max(2, int(x * Q) + 2 * r.randrange(-20, 21)))
                         for x in riv[1:, 0]})
         bs = [0] + inner + [total]
         eiv = np.array([[a / Q, b / Q] for a, b in zip(bs[:-1], bs[1:])])
@@ -152,7 +152,7 @@ def gen_segment_eval(r):
         inp["est_iv"], inp["est_lab"] = eiv[:k].copy(), inp["est_lab"][:k]
         inp["cls"] = "est-shorter"
     elif u < 0.65:  # estimate longer
-        extra = r.randrange(1, 200) / Q
+        extra = 2 * r.randrange(1, 100) / Q
         end = eiv[-1, 1]
         inp["est_iv"] = np.vstack([eiv, [end, end + extra]])
         inp["est_lab"] = inp["est_lab"] + ["tail"]
